@@ -1,6 +1,7 @@
 (* C13 -- visualize is total on dumped archives, agrees with the audit, and what it emits is a well-formed tree. *)
 From Skv Require Import PyStr Json Node GetTree Unsafe UnsafeFacts NodeInd Families TreeWf TreeIds GraphAudit Walk WalkFacts.
 From Skv Require Import CodecGuards CodecWitness CodecShareFacts CodecFacts CodecRootFacts VisTotalFacts.
+From Skv Require Import IoShow PrintFacts.
 From Gen Require Import Snapshot.
 
 (* whenever visualize completes, what reaches the printer is: the root row first, then rows each at
@@ -325,4 +326,105 @@ Example C13_traverse_examples :
    Ok (map r_level l)) = Ok [0; 1; 2]%nat
   /\ (do l <- traverse_all ShowTrusted (s_ok [lrow 0 false; lrow 1 true; lrow 2 false; lrow 3 true; lrow 2 true]); Ok (map r_level l)) = Ok [0; 1; 2]%nat
   /\ traverse_all ShowAll (s_ok [lrow 0 true; lrow 2 true]) = Raise EValue.
+Proof. repeat split; vm_compute; reflexivity. Qed.
+
+(* ================= the text: every row is shown on ONE line (C13-F2, C13-F3 repaired) ================= *)
+
+(* The plain printer (pretty_print_tree without rich; model: IoShow.print_lines / print_tree) writes the text of a row --
+   f"{key}: {label}", label = the type name plus the tag of a row that is not self-safe -- through _get_node_text, which
+   replaces every character that is not printable by its unicode_escape.  For EVERY list of rows (any keys, any type names,
+   any tag, any levels and flags):
+   - exactly one line per row;
+   - every character of every line is printable in the model's sense (IoShow.isprintable: exact on the charset stated in
+     IoShow.v, which contains every line break and every surrogate; the tree-drawing prefix consists of printable characters
+     as well), hence is none of the code points str.splitlines splits on (10, 11, 12, 13, 28-30, 133, 8232, 8233), is no
+     surrogate and is at most U+10FFFF: the line can be written to a UTF-8 (or any Unicode) stream and stays one line;
+   - the i-th line is the i-th row's: a printable drawing prefix followed by the escaped text of that row;
+   - the whole output is the lines joined by line feeds; it contains length rows - 1 line breaks, and splitting it at the
+     line feeds gives back exactly the lines (a key cannot forge a row). *)
+Theorem C13_one_line_per_row :
+  forall (tag : pstr) (rows : list row),
+    length (print_lines tag rows) = length rows
+    /\ Forall (Forall (fun c => isprintable c = true /\ is_linebreak c = false /\ is_surrogate c = false /\ (c <= 1114111)%N))
+              (print_lines tag rows)
+    /\ (forall i r, nth_error rows i = Some r ->
+          exists pre, Forall (fun c => isprintable c = true) pre
+                      /\ nth_error (print_lines tag rows) i = Some (pre ++ node_text tag r))
+    /\ print_tree tag rows = join [10%N] (print_lines tag rows)
+    /\ length (filter is_linebreak (print_tree tag rows)) = pred (length rows)
+    /\ (rows <> [] -> split_on 10 (print_tree tag rows) = print_lines tag rows).
+Proof. exact one_line_per_row. Qed.
+Print Assumptions C13_one_line_per_row.
+
+(* what "printable in the model's sense" excludes, and where the model is exact: a printable code point is no line break, no
+   surrogate, at most U+10FFFF and lies in the exact charset; every line break and every surrogate lies in the exact charset
+   and is not printable *)
+Theorem C13_printable_table :
+  (forall c, isprintable c = true ->
+     is_linebreak c = false /\ is_surrogate c = false /\ (c <= 1114111)%N /\ in_ranges c exact_charset = true)
+  /\ forallb (fun c => in_ranges c exact_charset && negb (isprintable c)) linebreaks = true
+  /\ (forall c, is_surrogate c = true -> in_ranges c exact_charset = true /\ isprintable c = false).
+Proof.
+  split; [|split; [exact linebreaks_in_charset|exact surrogates_in_charset]].
+  intros c H. split; [exact (printable_not_linebreak c H)|]. destruct (printable_scalar c H) as [A B].
+  split; [exact B|]. split; [exact A|exact (printable_in_charset c H)].
+Qed.
+Print Assumptions C13_printable_table.
+
+(* the repair changes nothing for ordinary names: a text is shown as it is exactly when all its characters are printable *)
+Theorem C13_escape_identity :
+  forall t : pstr, escape_text t = t <-> Forall (fun c => isprintable c = true) t.
+Proof. intros t. split; [exact (escape_text_fix t)|exact (escape_text_id t)]. Qed.
+Print Assumptions C13_escape_identity.
+
+(* the escape loses nothing -- except through a literal backslash: on texts of Unicode code points without a backslash it has
+   a left inverse (unescape_text), so two different row texts at the same place of the tree never print the same line.  The
+   guard is needed: a printable backslash is not escaped, so the two-character key "\n" (backslash, n) and the key that is a
+   line feed print alike (C13_escape_backslash_collides). *)
+Theorem C13_escape_injective_on_lines :
+  (forall t, Forall (fun c => c <> 92%N /\ (c <= 1114111)%N) t -> unescape_text (escape_text t) = t)
+  /\ (forall t1 t2, Forall (fun c => c <> 92%N /\ (c <= 1114111)%N) t1 -> Forall (fun c => c <> 92%N /\ (c <= 1114111)%N) t2 ->
+        escape_text t1 = escape_text t2 -> t1 = t2)
+  /\ (forall pre tag r1 r2,
+        Forall (fun c => c <> 92%N /\ (c <= 1114111)%N) (r_key r1 ++ s ": " ++ label [] tag r1) ->
+        Forall (fun c => c <> 92%N /\ (c <= 1114111)%N) (r_key r2 ++ s ": " ++ label [] tag r2) ->
+        pre ++ node_text tag r1 = pre ++ node_text tag r2 ->
+        r_key r1 ++ s ": " ++ label [] tag r1 = r_key r2 ++ s ": " ++ label [] tag r2).
+Proof. split; [exact unescape_escape|]. split; [exact escape_text_injective|exact lines_injective]. Qed.
+Print Assumptions C13_escape_injective_on_lines.
+
+Example C13_escape_backslash_collides :
+  escape_text [10%N] = escape_text [92; 110]%N /\ [10%N] <> [92; 110]%N.
+Proof. split; [vm_compute; reflexivity|discriminate]. Qed.
+
+(* the escape forms, one of each: \t \n \r, \xNN below 256 (ESC, DEL, NEL, NO-BREAK SPACE, SOFT HYPHEN), \uNNNN below 65536
+   (LINE SEPARATOR, a lone surrogate, BOM), \UNNNNNNNN above (LANGUAGE TAG); a backslash, Latin-1, Greek, CJK, box drawing and
+   an emoticon stay *)
+Example C13_escape_forms :
+  escape_text [9; 10; 13; 27; 127; 133; 160; 173; 8232; 55296; 65279; 917505]%N
+  = s "\t\n\r\x1b\x7f\x85\xa0\xad\u2028\ud800\ufeff\U000e0001"
+  /\ escape_text [92; 233; 955; 26085; 9474; 128512]%N = [92; 233; 955; 26085; 9474; 128512]%N.
+Proof. split; vm_compute; reflexivity. Qed.
+
+(* non-vacuity, the two former witnesses.  C13-F2: visualize(dumps({"\ud800": 1})) -- the key was printed raw and the default
+   sink raised UnicodeEncodeError on a UTF-8 stdout; C13-F3: visualize(dumps({"a\nroot: builtins.dict": 1, "b": 1})) printed
+   four lines for three rows.  On the rows the walk yields for these archives (root dict, one json leaf per key; key_types is
+   not shown when all keys are strings) the printer now emits one line per row, the unprintable characters escaped *)
+Definition prow (level : nat) (key val : pstr) (last : bool) : row :=
+  {| r_level := level; r_key := key; r_val := val; r_self_safe := true; r_safe := true; r_last := last |}.
+Definition w_surrogate_rows : list row := [prow 0 (s "root") (s "builtins.dict") true; prow 1 [55296%N] (s "json-type(1)") true].
+Definition w_forged_rows : list row :=
+  [prow 0 (s "root") (s "builtins.dict") true;
+   prow 1 (s "a" ++ 10%N :: s "root: builtins.dict") (s "json-type(1)") false;
+   prow 1 (s "b") (s "json-type(1)") true].
+Example C13_former_witnesses_one_line :
+  print_lines (s "[UNSAFE]") w_surrogate_rows
+  = [s "root: builtins.dict"; [9492; 9472; 9472; 32]%N ++ s "\ud800: json-type(1)"]
+  /\ print_lines (s "[UNSAFE]") w_forged_rows
+     = [s "root: builtins.dict"; [9500; 9472; 9472; 32]%N ++ s "a\nroot: builtins.dict: json-type(1)";
+        [9492; 9472; 9472; 32]%N ++ s "b: json-type(1)"]
+  /\ length (split_on 10 (print_tree (s "[UNSAFE]") w_forged_rows)) = 3%nat
+  (* an unsafe row: the tag is part of the escaped text *)
+  /\ print_lines [27%N] [{| r_level := 0; r_key := s "k"; r_val := s "x.y"; r_self_safe := false; r_safe := false; r_last := true |}]
+     = [s "k: x.y \x1b"].
 Proof. repeat split; vm_compute; reflexivity. Qed.
